@@ -24,12 +24,15 @@ theorem no_match_structure (P : Prims) (ids : List Identity) (hne : ids ≠ []) 
   rw [this.1, this.2]
   simp
 
-/-- Decrypt hands out a payload reader only if some identity returned a non-empty
-    file key that verifies the header MAC: without a key there is no reader. -/
+/-- Decrypt hands out a payload reader only if some identity returned a file key that verifies the header MAC:
+    without a key there is no reader. The key is non-empty unless the identity that ended the loop is an ssh-rsa
+    identity (`endsNonNil`): `rsa.DecryptOAEP` hands back an empty message as an empty NON-nil slice, which
+    `Decrypt`'s `fileKey == nil` does not take for "no key" — a hand-built file around an empty file key addressed to
+    an ssh-rsa key decrypts (correspondence cases `fksize/ssh-rsa/0/*`); no other identity type does this. -/
 theorem reader_requires_key (P : Prims) (ids : List Identity) (file : Bytes) (k payload : Bytes) (c : Nat)
     (h : decryptInit P ids file = (.ok (k, payload), c)) :
     ∃ hdr rest fk, parse file = .ok (hdr, rest) ∧ (∃ i ∈ ids, i.unwrap P hdr.stanzas = .key fk) ∧
-      fk ≠ [] ∧ headerMAC P fk hdr.stanzas = hdr.mac := by
+      (fk ≠ [] ∨ endsNonNil P hdr.stanzas ids = true) ∧ headerMAC P fk hdr.stanzas = hdr.mac := by
   obtain ⟨hdr, rest, fk, h1, h2, h3, h4, _⟩ := decryptInit_ok P ids file k payload c h
   exact ⟨hdr, rest, fk, h1, h2, h3, h4⟩
 
@@ -186,10 +189,10 @@ theorem finding_K1_nul_suffix_passphrase (pw : Bytes) (h : pw.length < 64) (m : 
     intro l
     induction l with
     | nil => exact .nil
-    | cons i is ih => exact .cons (fun _ => rfl) ih
+    | cons i is ih => exact .cons ⟨fun _ => rfl, rfl⟩ ih
   induction pre with
   | nil => exact .cons (scryptIdentity_same _ pw (pw ++ [0]) m (finding_K1_same_kdf pw h)) (hrefl post)
-  | cons i is ih => exact .cons (fun _ => rfl) ih
+  | cons i is ih => exact .cons ⟨fun _ => rfl, rfl⟩ ih
 
 /-! ## Known finding K2 — same root cause: HMAC replaces a key longer than its
     64-byte block by the key's SHA-256 digest, so for a passphrase longer than 64
@@ -209,10 +212,10 @@ theorem finding_K2_digest_passphrase (pw : Bytes) (h : pw.length > 64) (m : Nat)
     intro l
     induction l with
     | nil => exact .nil
-    | cons i is ih => exact .cons (fun _ => rfl) ih
+    | cons i is ih => exact .cons ⟨fun _ => rfl, rfl⟩ ih
   induction pre with
   | nil => exact .cons (scryptIdentity_same _ pw (Crypto.sha256 pw) m (finding_K2_same_kdf pw h)) (hrefl post)
-  | cons i is ih => exact .cons (fun _ => rfl) ih
+  | cons i is ih => exact .cons ⟨fun _ => rfl, rfl⟩ ih
 
 /-- an SSH identity whose tag differs from the stanza's answers "incorrect identity" -/
 theorem ssh_other_tag_incorrect (P : Prims) (w k : Bytes) (s : Stanza) (tag : Bytes)
